@@ -348,8 +348,16 @@ func runC10(c *Ctx, r *Report) {
 		}
 		r.check(ok, "C10-R4-chaining", "DecodeChained/same-reader", c.pos(fn.Pos()), why, why)
 		// fresh decoder per file, or a complete re-initialisation (perfile.go)
+		optionsCarryNoState(c, r, "C10-R4-chaining")
 		perFileRule(c, r, "C10-R4-chaining", nil, "buffered bytes, counters, definitions or timestamps of one file are seen by the next, so a chained file does not decode as it does alone")
 	}
+	sharedDecode(c, r)
+}
+
+// sharedDecode: every decoding entry point goes through the one decoder.decode exactly once and
+// returns the decoder's own result: the header and file verdicts established for decode (C04) and its
+// framing (C10) hold for each entry point, none of which has a private reading path.
+func sharedDecode(c *Ctx, r *Report) {
 	for _, e := range []struct{ name, ret string }{{"DecodeHeader", ".h"}, {"DecodeHeaderAndFileID", ".h"}, {"Decode", ".file"}, {"CheckIntegrity", ""}} {
 		fn := c.ssaFn(c.fn(c.fit, e.name))
 		if fn == nil {
